@@ -305,7 +305,7 @@ func (b *Bridge) DecodeQueryRecord(rec string, q string) string {
 	panicked, pv := hx.Recover(func() {
 		qr, err := restlicodec.ParseQueryParams(q)
 		if err != nil {
-			outcome = "err syntax"
+			outcome = "err other"
 			return
 		}
 		p := b.NewNamed(rec)
